@@ -216,8 +216,14 @@ def service_calls(res, rng, host, eq, scen, n_calls):
     subscribed = eq.__dict__.setdefault("_v_subscribed", {})  # subscriptions survive reconnects (the equipment keeps its links)
     ops = ["sv", "svs", "ec", "set_ec", "set_ec_bad", "online", "offline", "alarm_en", "alarm_dis", "alarms", "enabled_alarms",
            "subscribe", "trigger", "trigger", "rcmd", "set_alarm", "clear_alarm", "ayt", "list_svs", "list_ecs", "subscribe_race", "trigger_burst"]
-    for i in range(n_calls):
-        op = rng.choice(ops)
+    # every first use of a pair names a predefined event by its enum member once (deterministic prelude), the rest is random
+    forced = [("subscribe", 21), ("trigger", 21), ("trigger", 21)] if 21 not in subscribed else []
+    for i in range(n_calls + len(forced)):
+        force_ceid = None
+        if forced:
+            op, force_ceid = forced.pop(0)
+        else:
+            op = rng.choice(ops)
         res.bump("c20_ops", op)
         case = {"scenario": scen, "op": op, "i": i}
 
@@ -298,7 +304,7 @@ def service_calls(res, rng, host, eq, scen, n_calls):
             if gotl != want:
                 fail("list_enabled_alarms() differs from the equipment's enabled alarms", want, gotl)
         elif op == "subscribe":
-            ceid = rng.choice([100, 101])
+            ceid = force_ceid or rng.choice([100, 101, 21])  # 21 = CollectionEventId.CMD_STOP_DONE, predefined by the library
             if ceid in subscribed:
                 continue
             dvs = [30] if ceid == 100 else [10]
@@ -363,11 +369,14 @@ def service_calls(res, rng, host, eq, scen, n_calls):
         elif op == "trigger":
             if not subscribed:
                 continue
-            ceid = rng.choice(sorted(subscribed))
+            ceid = force_ceid if force_ceid in subscribed else rng.choice(sorted(subscribed))
             with lock:
                 n0 = len([e for e in got_events if e[0] == ceid])
-            want_vals = [eq.data_values[30].value] if ceid == 100 else ([eq.sv[10]] if ceid == 101 else [eq.sv[11]])
-            eq.trigger_collection_events([ceid])
+            want_vals = [eq.data_values[30].value] if ceid == 100 else ([eq.sv[10]] if ceid in (101, 21) else [eq.sv[11]])
+            # the application may name a predefined event by its enum member (`CollectionEventId.X`) or by its number
+            as_enum = ceid in [m.value for m in secsgem.gem.CollectionEventId] and (rng.chance(2, 3) or (force_ceid is not None and len(forced) == 1))
+            case["ceid_form"] = "enum member" if as_enum else "plain id"
+            eq.trigger_collection_events([secsgem.gem.CollectionEventId(ceid) if as_enum else ceid])
             expected_events += 1
             deadline = time.time() + CALL_BOUND
             while time.time() < deadline:
@@ -500,6 +509,49 @@ def scenario(res, rng, drv_lines, host_active, eq_first, seg, delays, n_calls, c
                 pass
 
 
+def scenario_disable_mid_establish(res, rng, host_active, who_gem, state_wanted, scen):
+    """One side's GEM layer is not up yet (only its HSMS protocol is enabled: the link gets selected, an S1F13 is never answered).  The other
+    side is then somewhere in WAIT_CRA / WAIT_DELAY; disabling it there must work (no exception, DISABLED), and after both sides are enabled
+    properly the pair must reach communication."""
+    host, eq, hc, ec = make_pair(host_active, [1 << 30], [0.0])
+    stop = threading.Event()
+    threading.Thread(target=pairlib.retry_loop, args=(hc, ec, stop), daemon=True).start()
+    gem, bare = (host, eq) if who_gem == "host" else (eq, host)
+    case = {"scenario": scen, "host_active": host_active, "gem_side": who_gem, "disable_in": state_wanted}
+    want = CommunicationState.WAIT_DELAY if state_wanted == "WAIT_DELAY" else CommunicationState.WAIT_CRA
+    try:
+        bare.protocol.enable()
+        gem.enable()
+        t_end = time.time() + 6
+        while time.time() < t_end and gem.communication_state.current != want:
+            time.sleep(0.005)
+        reached = gem.communication_state.current == want
+        res.count(("mid-establish", scen), nontrivial=reached, sample={"scenario": scen, "reached": gem.communication_state.current.name})
+        res.bump("c20_disable_in", gem.communication_state.current.name)
+        st, err = bounded(gem.disable, 8)
+        cur = gem.communication_state.current
+        if st != "ok" or cur != CommunicationState.DISABLED:
+            res.violate("c20-disable-mid-establish", f"disable() while the handler was in {want.name} (peer never answered the S1F13): {st}"
+                        f"{'' if err is None else ' ' + hlib.errkind(err)}, state afterwards {cur.name}", case, "returns, DISABLED", (st, cur.name))
+        bounded(bare.protocol.disable, 8)
+        time.sleep(0.05)
+        st1, _ = bounded(gem.enable, 8)
+        st2, _ = bounded(bare.enable, 8)
+        ok, dt = wait_both(host, eq, BOUND)
+        if st1 != "ok" or st2 != "ok" or not ok:
+            res.violate("c20-no-reconvergence", f"after a disable in {want.name} and a proper enable of both sides the pair did not reach COMMUNICATING within {BOUND} s",
+                        case, "COMMUNICATING x2", (st1, st2, host.communication_state.current.name, eq.communication_state.current.name))
+    except Exception as exc:  # noqa: BLE001
+        res.violate("c20-exception", f"disable-mid-establish scenario: {hlib.errkind(exc)}: {exc}", case)
+    finally:
+        stop.set()
+        for h in (host, eq):
+            try:
+                bounded(h.disable, 5)
+            except Exception:  # noqa: BLE001
+                pass
+
+
 def main():
     a = hlib.std_args()
     res = hlib.Result("C20", a.tier, a.seed)
@@ -524,6 +576,10 @@ def main():
     for ha, ef in (combos if big else [combos[a.seed % 4], combos[(a.seed + 3) % 4]]):
         scenario(res, rng.fork(f"slow{n}"), drv_lines, ha, ef, [1 << 30], [0.0], 4, 0, f"slow{n}", slow_enable=True)
         n += 1
+    # disable() in the middle of an establish attempt (peer's GEM layer not up: S1F13 never answered), then a proper start
+    mids = [(ha, who, stt) for ha in (True, False) for who in ("host", "equip") for stt in ("WAIT_DELAY", "WAIT_CRA")]
+    for k, (ha, who, stt) in enumerate(mids if big else [mids[(a.seed + j * 3) % 8] for j in range(3)]):
+        scenario_disable_mid_establish(res, rng.fork(f"mid{k}"), ha, who, stt, f"mid{k}")
     # abstraction check: every observed step of the joint (session, communication) state is a path of the abstract pair model
     drv = hlib.Driver()
     import c20_gem
